@@ -25,8 +25,9 @@ pub assume_specification<'a, T> [ <core::slice::ChunksExact<'a, T> as Iterator>:
     ce_size(*final(c)) == ce_size(*old(c)),
     ce_rest(*old(c)).len() >= ce_size(*old(c)) ==> (r matches Some(ch) && ch@ == ce_rest(*old(c)).take(ce_size(*old(c)) as int) && ce_rest(*final(c)) == ce_rest(*old(c)).skip(ce_size(*old(c)) as int)),
     ce_rest(*old(c)).len() < ce_size(*old(c)) ==> (r is None && ce_rest(*final(c)) == ce_rest(*old(c)));
+// (only the case the code needs: once fewer than `size` elements are left, they are the remainder)
 pub assume_specification<'a, T> [ core::slice::ChunksExact::<'a, T>::remainder ] (c: &core::slice::ChunksExact<'a, T>) -> (r: &'a [T])
-  ensures r@ == ce_rest(*c).skip(((ce_rest(*c).len() / ce_size(*c)) * ce_size(*c)) as int);
+  ensures ce_rest(*c).len() < ce_size(*c) ==> r@ == ce_rest(*c);
 
 // ================= leaf (assumed here; discharged by the Kani harness leaf_read_u64_le) =================
 // little-endian value of at most 8 bytes, zero padded
@@ -256,6 +257,8 @@ seed , total_len : 0 , v1 : seed . wrapping_add ( P1 ) . wrapping_add ( P2 ) , v
 
     fn finish64 ( & self ) -> ( r : u64 ) requires self . buffer_len < 32 , ensures
 /*@C16.x_digest*/ forall | d : Seq < u8 > | # [ trigger ] self . represents ( d ) ==> r == xxh64 ( self . seed , d ) , {
+hide ( vstd :: wrapping :: u64_specs :: wrapping_mul ) ;
+hide ( vstd :: wrapping :: u64_specs :: wrapping_add ) ;
 let mut hash = if self . total_len >= 32 {
 proof {
 reveal ( converge ) ;
@@ -326,6 +329,8 @@ finalize ( hash ) }
 
     fn hash_u64 ( input : u64 , seed : u64 ) -> ( r : u64 ) ensures
 /*@C16.x_u64*/ forall | d : Seq < u8 > | d . len ( ) == 8 && le64 ( d ) == input ==> r == # [ trigger ] xxh64 ( seed , d ) , {
+hide ( vstd :: wrapping :: u64_specs :: wrapping_mul ) ;
+hide ( vstd :: wrapping :: u64_specs :: wrapping_add ) ;
 let mut hash = seed . wrapping_add ( P5 ) . wrapping_add ( 8 ) ;
 let mut k1 = input ;
 k1 = k1 . wrapping_mul ( P2 ) ;
@@ -430,13 +435,6 @@ break ;
 }
 }
 }
-proof {
-assert ( ce_size ( chunks ) == 32 ) ;
-let n = ce_rest ( chunks ) . len ( ) ;
-assert ( n < 32 ) ;
-assert ( ( n / 32 ) * 32 == 0 ) ;
-assert ( ( ( n / ce_size ( chunks ) ) * ce_size ( chunks ) ) == 0 ) ;
-}
 let remainder = chunks . remainder ( ) ;
 proof {
 assert ( remainder @ =~= ce_rest ( chunks ) ) ;
@@ -449,7 +447,6 @@ self . buffer_len = remainder . len ( ) ;
 proof {
 let rest = ce_rest ( chunks ) ;
 assert ( rest . len ( ) < 32 ) ;
-assert ( ( rest . len ( ) / 32 ) * 32 == 0 ) ;
 assert ( remainder @ =~= rest ) ;
 assert ( self . buffer_len == rest . len ( ) ) ;
 assert ( rest =~= st . skip ( done + 32 * i as int ) ) ;
@@ -465,6 +462,8 @@ lemma_after2 ( pre , * self , all , d , base + i ) ;
 
 fn round ( mut acc : u64 , input : u64 ) -> ( r : u64 ) ensures
 /*@C16.x_round*/ r == round_spec ( acc , input ) , {
+hide ( vstd :: wrapping :: u64_specs :: wrapping_mul ) ;
+hide ( vstd :: wrapping :: u64_specs :: wrapping_add ) ;
 proof {
 reveal ( round_spec ) ;
 }
@@ -475,6 +474,8 @@ acc . wrapping_mul ( P1 ) }
 
 fn merge_round ( mut acc : u64 , val : u64 ) -> ( r : u64 ) ensures
 /*@C16.x_merge*/ r == merge_round_spec ( acc , val ) , {
+hide ( vstd :: wrapping :: u64_specs :: wrapping_mul ) ;
+hide ( vstd :: wrapping :: u64_specs :: wrapping_add ) ;
 proof {
 reveal ( merge_round_spec ) ;
 }
@@ -488,6 +489,8 @@ acc . wrapping_mul ( P1 ) . wrapping_add ( P4 ) }
 
 fn finalize ( mut hash : u64 ) -> ( r : u64 ) ensures
 /*@C16.x_avalanche*/ r == finalize_spec ( hash ) , {
+hide ( vstd :: wrapping :: u64_specs :: wrapping_mul ) ;
+hide ( vstd :: wrapping :: u64_specs :: wrapping_add ) ;
 proof {
 reveal ( finalize_spec ) ;
 }
